@@ -626,3 +626,9 @@ fire("C08", "svd-flip-swapped-in-one-driver", "R8.6", E(LOT, "lot_vectors_dense"
      "sign fixing with exchanged factors in the dense driver only")
 fire("C08", "svd-iterations-dropped-in-one-driver", "R8.6", E(LOT, "sinkhorn_vectors_sparse", "n_iter=n_svd_iter,", "", count=2),
      "the Sinkhorn driver runs the SVD with the library default number of iterations")
+
+# --- C15: zero weights skipped together with the walk step (seeded C15)
+fire("C15", "zero-weight-skips-walk-step", "R15.2", E(TREE, "build_tree_skip_grams", "        walk = walk @ adjacency_matrix\n", "        if weights[i] == 0:\n            continue\n        walk = walk @ adjacency_matrix\n"),
+     "seeded C15: the walk power no longer advances on a zero weight")
+silent("C15", "zero-weight-skips-only-the-add", E(TREE, "build_tree_skip_grams", "        count_matrix += walk * weights[i]\n", "        if weights[i] != 0:\n            count_matrix += walk * weights[i]\n"),
+       "the same optimisation done right: the walk still advances")
